@@ -294,6 +294,8 @@ C05_Items ==
 
 C05_Bodies ==
   { <<Cap("x", Cls("any")), Loop(0, 1, FALSE, Cap("y", Lb))>>,
+    \* a named loop: its name holds the per-iteration maps, not a text - named as a `with` item it writes nothing
+    <<NLoop(1, -1, FALSE, Cap("x", La), "y"), Loop(0, 1, FALSE, Lb)>>,
     <<Cap("x", Grp(<<Loop(1, -1, FALSE, La)>>))>>,
     <<Or(Grp(<<Cap("x", La)>>), Grp(<<Cap("y", Lb)>>))>>,
     <<Lab>> }
